@@ -70,13 +70,35 @@ def main():
     units = mod.units(tier)
     if a.unit:
         units = [u for u in units if u == a.unit]
-    jobs = [(modname, u, tier, seed, known) for u in units]
-    if a.jobs <= 1 or len(jobs) <= 1:
-        results = [_run_unit(j) for j in jobs]
+    import subprocess
+    import tempfile
+    from concurrent.futures import ThreadPoolExecutor
+    unit_timeout = int(os.environ.get('PYVC_UNIT_TIMEOUT_S', '900' if tier == 'quick' else '7200'))
+    tmpdir = tempfile.mkdtemp(prefix='pyvc_units_', dir='/var/tmp')
+    known_path = os.path.join(tmpdir, 'known.json')
+    with open(known_path, 'w') as f:
+        json.dump(known, f)
+
+    def run_one(u):
+        # one fresh interpreter per unit: reproducible solver verdicts, and a crashing / hanging unit cannot take the check down
+        out_path = os.path.join(tmpdir, f'{abs(hash(u))}.json')
+        t1 = time.time()
+        try:
+            p = subprocess.run([sys.executable, '-W', 'ignore', '-m', 'pyvc.unitrun', modname, u, tier, str(seed), known_path, out_path],
+                               cwd=VERIF, capture_output=True, text=True, timeout=unit_timeout)
+        except subprocess.TimeoutExpired:
+            return {'unit': u, 'undecided_unit': f'unit timed out after {unit_timeout}s', 'wall_s': round(time.time() - t1, 1)}
+        if os.path.exists(out_path):
+            with open(out_path) as f:
+                return json.load(f)
+        return {'unit': u, 'undecided_unit': f'unit process died (exit {p.returncode}): {p.stderr[-400:]}', 'wall_s': round(time.time() - t1, 1)}
+    if a.jobs <= 1 or len(units) <= 1:
+        results = [run_one(u) for u in units]
     else:
-        ctx = mp.get_context('spawn')
-        with ctx.Pool(min(a.jobs, len(jobs))) as pool:
-            results = pool.map(_run_unit, jobs, chunksize=1)
+        with ThreadPoolExecutor(max_workers=min(a.jobs, len(units))) as ex:
+            results = list(ex.map(run_one, units))
+    import shutil
+    shutil.rmtree(tmpdir, ignore_errors=True)
 
     from pyvc import report
     return report.finish(pid, tier, seed, mod, results, known, time.time() - t0)
